@@ -1518,6 +1518,26 @@ def builtin_summary(I, cal, args, node, st):
             else:
                 outs.append(o)
         return outs
+    if I.combinators and name == 'fold' and ('iterator::Iterator::' in cal or 'core::iter::traits::iterator::Iterator>::' in cal) \
+            and len(args) == 3 and args[1] == FALSE and args[2][0] in ('closure', 'fn'):
+        # `fold(false, |acc, x| acc || p(x))` is `any(p)`: recognised when the step keeps `true` and, from `false`, yields p(x)
+        src = args[0]
+        el, st2 = st.fresh('elem')
+        el = ('elem', src, el[2])
+        keeps = [o for o in I.apply(args[2], [TRUE, el], node, st2) if o.kind == 'val']
+        if keeps and all(o.val == TRUE for o in keeps):
+            conds = []
+            base = len(st2.pc)
+            okf = True
+            for o in I.apply(args[2], [FALSE, el], node, st2):
+                if o.kind != 'val':
+                    okf = False; continue
+                for truth, s3 in I.decide(o.val, o.st):
+                    if truth:
+                        conds.append(tuple(s3.pc[base:]))
+            if okf:
+                atom = ('any', src, el, tuple(sorted(set(conds), key=str)))
+                return [Out('val', ('lit', truth), s3) for truth, s3 in I.decide(atom, st2)]
     if I.combinators and name in ('any', 'position', 'all', 'find') and ('iterator::Iterator::' in cal or 'core::iter::traits::iterator::Iterator>::' in cal) \
             and len(args) == 2 and args[1][0] in ('closure', 'fn'):
         # a search over a sequence with a predicate: the predicate is evaluated once on a generic element; the atom records the
